@@ -31,8 +31,12 @@ func envOr(k, d string) string {
 	return d
 }
 
+var loadGennames bool
+
 type Loaded struct {
 	prog    *ssa.Program
+	gen     *ssa.Package // package main of gennames (only when loadGennames)
+	genOv   map[string]string
 	jen     *ssa.Package
 	pkgs    map[*ssa.Package]bool
 	overlay map[string]string // virtual path -> real path
@@ -60,13 +64,29 @@ func load() (*Loaded, error) {
 		ov[virt] = b
 		ovPaths[virt] = f
 	}
+	genOv := map[string]string{}
+	patterns := []string{"./jen"}
+	if loadGennames {
+		gfs, _ := filepath.Glob(filepath.Join(verifDir, "harness_gennames", "*.go"))
+		sort.Strings(gfs)
+		for _, f := range gfs {
+			b, err := os.ReadFile(f)
+			if err != nil {
+				return nil, err
+			}
+			virt := filepath.Join(repoDir, "gennames", "zz_verif_"+filepath.Base(f))
+			ov[virt] = b
+			genOv[virt] = f
+		}
+		patterns = append(patterns, "./gennames")
+	}
 	cfg := &packages.Config{
 		Mode:    packages.LoadAllSyntax,
 		Dir:     repoDir,
 		Overlay: ov,
 		Env:     append(os.Environ(), "GOFLAGS=-mod=mod", "GOPROXY=off", "GOSUMDB=off", "GOTOOLCHAIN=local"),
 	}
-	pkgs, err := packages.Load(cfg, "./jen")
+	pkgs, err := packages.Load(cfg, patterns...)
 	if err != nil {
 		return nil, err
 	}
@@ -80,10 +100,15 @@ func load() (*Loaded, error) {
 		return nil, fmt.Errorf("package load errors:\n%s", strings.Join(errs, "\n"))
 	}
 	prog, spkgs := ssautil.AllPackages(pkgs, ssa.InstantiateGenerics)
-	l := &Loaded{prog: prog, pkgs: map[*ssa.Package]bool{}, overlay: ovPaths}
+	l := &Loaded{prog: prog, pkgs: map[*ssa.Package]bool{}, overlay: ovPaths, genOv: genOv}
 	for _, sp := range spkgs {
 		if sp != nil && sp.Pkg.Path() == "github.com/dave/jennifer/jen" {
 			l.jen = sp
+			sp.Build()
+			l.pkgs[sp] = true
+		}
+		if sp != nil && loadGennames && sp.Pkg.Path() == "github.com/dave/jennifer/gennames" {
+			l.gen = sp
 			sp.Build()
 			l.pkgs[sp] = true
 		}
@@ -154,6 +179,13 @@ func harnessesFor(l *Loaded, id string) []*ssa.Function {
 			out = append(out, f)
 		}
 	}
+	if l.gen != nil {
+		for name, m := range l.gen.Members {
+			if f, ok := m.(*ssa.Function); ok && strings.HasPrefix(name, "H_"+id+"_") {
+				out = append(out, f)
+			}
+		}
+	}
 	sort.Slice(out, func(i, j int) bool { return out[i].Name() < out[j].Name() })
 	return out
 }
@@ -203,6 +235,9 @@ func cmdRun(args []string) int {
 	workers := fs.Int("workers", runtime.NumCPU(), "workers")
 	verbose := fs.Bool("v", false, "verbose")
 	tier, _, _ := tierFromArgs(fs, args[1:])
+	if strings.Contains(name, "gennames") {
+		loadGennames = true
+	}
 	if strings.Contains(name, "_gen_") {
 		gp, _, gerr := generateAPIHarness()
 		if gerr != nil {
@@ -218,6 +253,9 @@ func cmdRun(args []string) int {
 		return 2
 	}
 	fn := l.jen.Func(name)
+	if fn == nil && l.gen != nil {
+		fn = l.gen.Func(name)
+	}
 	if fn == nil {
 		fmt.Fprintln(os.Stderr, "no such harness")
 		return 2
